@@ -25,6 +25,7 @@ type SpecFun struct {
 }
 
 type Lemma struct {
+	Use     []*SX // explicit instances of other lemmas
 	Name    string
 	Stmt    *Term
 	Measure *SX // measure expression over the outermost bound variables (nil: direct proof)
@@ -227,6 +228,9 @@ func (lib *SpecLib) loadCmd(x *SX, file string) error {
 				fmt.Sscanf(v.Atom, "%d", &l.Timeout)
 			case ":inst":
 				l.Inst = append(l.Inst, v)
+			case ":use":
+				// :use ((lemma t1 t2 …) …): explicit instances of earlier lemmas (their bound variables in order)
+				l.Use = append(l.Use, v.List...)
 			case ":cases":
 				l.Cases = v.List
 			case ":unfold":
